@@ -5,6 +5,7 @@ package main
 import (
 	"verif/internal/scen/c10"
 	"verif/internal/scen/c11"
+	"verif/internal/scen/c12"
 	"verif/internal/scen/c13"
 	"verif/internal/scen/c14"
 	"verif/internal/worker"
@@ -16,6 +17,7 @@ func main() {
 	worker.Register(c10.March{})
 	worker.Register(c10.March{Fast: true})
 	worker.Register(c11.Scenario{})
+	worker.Register(c12.Scenario{})
 	worker.Register(c13.Scenario{})
 	worker.Register(c14.Scenario{})
 	worker.Main()
